@@ -358,16 +358,40 @@ def shape_key(v):
     return core.canon({"pa": v["pa"], "ra": v["ra"], "tagged": v.get("tagged", False)})
 
 
-def pack_designs(shapes, per_design=40):
-    """shapes: list of shape dicts. Returns (designs, where) with where[shape_index] = (design index, service, GoMethod)."""
+def body_struct_keys(sh):
+    """[(structure, validations)] of the request and response body types of a method shape, structure as the OpenAPI 3
+    builder hashes it (attribute names, primitive types, nesting, required set; aliases are transparent)."""
+    out = []
+    for attrs, pfx in ((sh["pa"], "a"), (sh["ra"], "r")):
+        b = [(i, a) for i, a in enumerate(attrs) if a["loc"] == "body"]
+        if b:
+            out.append((tuple((pfx + str(i + 1), a["kind"], "direct" if a["nest"] in ("direct", "alias") else a["nest"], a["mode"] == "required") for i, a in b),
+                        tuple((a["nest"], a["rule"], a["mode"]) for i, a in b)))
+    return out
+
+
+def pack_designs(shapes, per_design=40, apart=None):
+    """shapes: list of shape dicts. Returns (designs, where) with where[shape_index] = (design index, service, GoMethod).
+    apart(shape) -> [(structure, validations)]: two shapes with an equal structure and different validations are not put in
+    the same design (first fit)."""
+    bins = []          # [shape indices, {structure: validations}]
+    for si, sh in enumerate(shapes):
+        keys = apart(sh) if apart else []
+        for b in (bins if apart else bins[-1:]):
+            if len(b[0]) < per_design and all(b[1].get(st, vl) == vl for st, vl in keys):
+                break
+        else:
+            b = [[], {}]
+            bins.append(b)
+        b[0].append(si)
+        b[1].update(keys)
     designs, where = [], {}
-    for start in range(0, len(shapes), per_design):
-        chunk = shapes[start:start + per_design]
+    for b in bins:
         types, methods = [], []
-        for off, sh in enumerate(chunk):
+        for off, si in enumerate(b[0]):
             idx = off + 1
-            methods.append(method_design(idx, sh, types))
-            where[start + off] = (len(designs), "s1", "M%d" % idx)
+            methods.append(method_design(idx, shapes[si], types))
+            where[si] = (len(designs), "s1", "M%d" % idx)
         designs.append({"api": {"name": "a%d" % (len(designs) + 1)}, "types": types, "services": [{"name": "s1", "methods": methods}]})
     return designs, where
 
